@@ -127,10 +127,11 @@ func (u *memoryManagementUnit) pushLineToL3(addr comp.AlignedAddress, line []int
 			break
 		}
 	}
-	if len(evicted) == 0 {
+	if evicted == nil {
 		return
 	}
-	u.writeToMemory(addr, line)
+	// Write back the evicted line, it may hold stores
+	u.writeToMemory(evicted.Boundary[0], evicted.Data)
 }
 
 func (u *memoryManagementUnit) writeToL3(addr int32, data []int8) {
